@@ -65,14 +65,16 @@ pub struct Recorder {
   pub token: Option<Token>,
   /// virtual time the subscriber spends inside its next callback, per item index (slow consumer)
   pub next_delays_ns: Arc<Vec<u64>>,
+  /// called inside every callback after the event was logged (re-entrant subscribers)
+  pub hook: Option<Arc<dyn Fn(&Ev) + Send + Sync>>,
 }
 
 impl Recorder {
   pub fn new() -> Recorder {
-    Recorder { log: Arc::new(Mutex::new(Vec::new())), probes: 0, token: None, next_delays_ns: Arc::new(Vec::new()) }
+    Recorder { log: Arc::new(Mutex::new(Vec::new())), probes: 0, token: None, next_delays_ns: Arc::new(Vec::new()), hook: None }
   }
   pub fn with_probes(n: u32) -> Recorder {
-    Recorder { log: Arc::new(Mutex::new(Vec::new())), probes: n, token: None, next_delays_ns: Arc::new(Vec::new()) }
+    Recorder { log: Arc::new(Mutex::new(Vec::new())), probes: n, token: None, next_delays_ns: Arc::new(Vec::new()), hook: None }
   }
   fn enter(log: &Arc<Mutex<Vec<Rec>>>, ev: Ev, probes: u32) -> usize {
     let seq_in = rt::seq();
@@ -95,10 +97,15 @@ impl Recorder {
     let p = self.probes;
     let (t1, t2, t3) = (self.token.clone(), self.token.clone(), self.token.clone());
     let delays = self.next_delays_ns.clone();
+    let (h1, h2, h3) = (self.hook.clone(), self.hook.clone(), self.hook.clone());
     o.subscribe(
       move |x| {
         let _t = &t1;
-        let i = Self::enter(&l1, Ev::Next(x), p);
+        let ev = Ev::Next(x);
+        let i = Self::enter(&l1, ev.clone(), p);
+        if let Some(h) = &h1 {
+          h(&ev);
+        }
         if !delays.is_empty() {
           let k = l1.lock().unwrap().iter().take(i + 1).filter(|r| matches!(r.ev, Ev::Next(_))).count() - 1;
           if let Some(d) = delays.get(k) {
@@ -111,12 +118,19 @@ impl Recorder {
       },
       move |e| {
         let _t = &t2;
-        let i = Self::enter(&l2, Ev::Error(err_id(&e)), p);
+        let ev = Ev::Error(err_id(&e));
+        let i = Self::enter(&l2, ev.clone(), p);
+        if let Some(h) = &h2 {
+          h(&ev);
+        }
         Self::leave(&l2, i);
       },
       move || {
         let _t = &t3;
         let i = Self::enter(&l3, Ev::Complete, p);
+        if let Some(h) = &h3 {
+          h(&Ev::Complete);
+        }
         Self::leave(&l3, i);
       },
     )
